@@ -102,6 +102,17 @@ func main() {
 		os.Exit(runSelfTest())
 	case "warm":
 		os.Exit(runWarm())
+	case "instrument":
+		// verif instrument <repo> <outdir>: write the rewritten gengo sources for inspection
+		ov, sites, err := instrument.RewriteRepo(os.Args[2], os.Args[3], instrument.Options{Order: true})
+		if err != nil {
+			fatal2("%v", err)
+		}
+		for _, s := range sites {
+			fmt.Println(s.ID, s.Kind, s.KeyType)
+		}
+		fmt.Println(len(ov), "files rewritten")
+		os.Exit(0)
 	default:
 		fatal2("unknown command %q", os.Args[1])
 	}
